@@ -27,7 +27,11 @@ namespace nmtools::index
         auto ret = return_t {};
         if constexpr (!meta::is_constant_index_array_v<return_t>) {
             // TODO: use index_type instead of size_t
-            size_t d = ceil_(float(stop - start) / step);
+            // integer start / stop are subtracted as signed values: with unsigned arguments the difference of a
+            // decreasing range would wrap
+            using diff_t = meta::conditional_t<meta::is_integer_v<start_t> && meta::is_integer_v<stop_t>
+                , long long, decltype(stop - start)>;
+            size_t d = ceil_(float(static_cast<diff_t>(stop) - static_cast<diff_t>(start)) / step);
             at(ret,0) = d;
         }
         return ret;
